@@ -194,7 +194,9 @@ def gen_loop(rng, imp, src_no, avoid_names, aggregate=None):
             for c in rng.sample(owners, min(len(owners), rng.choice([1, 1, 2]))):
                 if (c["stage"], c["name"]) in referenced:
                     continue          # an earlier aggregate reference made another component depend on it
-                cands = [t for t in comps if t is not c and t["stage"] <= c["stage"]]
+                # never a component that aggregates itself: it must stay one nothing depends on
+                cands = [t for t in comps if t is not c and t["stage"] <= c["stage"] and
+                         not any(r["method"] in AGG and r["producer"] not in keys for r in t["refs"])]
                 if not cands:
                     continue
                 t = rng.choice(cands)
